@@ -2,6 +2,7 @@ import XcpProofs.Perm
 import XcpProofs.L0Fs
 import XcpProofs.MirrorConc
 import XcpProofs.OverlayConc
+import XcpProofs.MultiConc
 import XcpProofs.PoolInv
 import XcpProofs.ParfileInv
 import XcpProps.C01
@@ -43,8 +44,11 @@ count / queue capacity:
 
   Likewise for an EXISTING compatible destination (`existing_destination_any_interleaving`).
 
-What is NOT proved: that the walker establishes `GoodAll` at every hand-over across SEVERAL sources of one run (their
-operations interleave too; with one base name twice this is finding F10) or for incompatible destinations, and the bridge from the real thread structure to `Xcp.L0` (transcribed from the source); both
+  And across SEVERAL sources of one run whose operations interleave (`several_sources_any_interleaving`), for distinct
+  base names (one base name twice is finding F10).
+
+What is NOT proved: the hand-over condition for incompatible destinations (kind conflicts fail; a destination symlink under
+a source file is F13), with `--dereference`, and the bridge from the real thread structure to `Xcp.L0` (transcribed from the source); both
 are checked on every real run instead (per-target call order by the monitor, mkdir-before-children and
 equality of end states across schedules, worker counts and drivers, and against `L1run`).  Two recorded findings show where the
 statement itself fails on the unchanged code: two sources mapping onto one target (F10) and the partial state
@@ -174,6 +178,28 @@ theorem existing_destination_any_interleaving (fs : Fs) (c : Cfg) (hd : c.derefe
     (L0.final s = true →
       FsEq s.fs { fs with root := fs.root.setAt tb.names (Node.overlay (fs.root.getAt tb.names) srcNode) }) :=
   overlay_concurrent_ok fs c hd hn src tb srcNode fuel hwf hroot hsrc hsn hcop htb hne hcompat hpar hun1 hun2 hlen ls s hrun
+
+/-- … and for SEVERAL sources whose operations interleave (`xcp -r s1 … sn DEST/`: the walker goes through the sources one
+after the other while workers still complete operations of earlier ones): with distinct base names, sources and targets
+mutually unrelated and each target compatible in the initial state, no interleaving can make an operation fail and every
+complete run ends with every source overlaid at `DEST/basename` -/
+theorem several_sources_any_interleaving (fs : Fs) (c : Cfg) (dest : RPath) (items : List CopySrc) (fuel : Nat)
+    (hd : c.dereference = false) (hn : c.noClobber = false)
+    (hwf : FsEq fs fs)
+    (hdest : PlainTarget fs dest) (hdd : ∃ es, fs.root.getAt dest.names = some (.dir es))
+    (hfuel : fuel < walkFuel)
+    (hsrc : ∀ e ∈ items, PlainTarget fs e.path ∧ e.path.fileName = some e.base ∧
+      fs.root.getAt e.path.names = some e.node ∧ e.node.Copyable fuel ∧ e.path.names.length + walkFuel < 256)
+    (hnd : (items.map (·.base)).Nodup)
+    (hun : ∀ e ∈ items, ∀ e' ∈ items,
+      ¬ e.path.names <+: dest.names ++ [e'.base] ∧ ¬ dest.names ++ [e'.base] <+: e.path.names)
+    (hcomp : ∀ e ∈ items, Compatible (fs.root.getAt (dest.names ++ [e.base])) e.node)
+    (hlen : dest.names.length + 1 + walkFuel < 256)
+    (ls : List L0.Label) (s : L0.St)
+    (hrun : L0.run c (L0.init fs (multiOps fs c dest items)) ls = some s) :
+    s.failed = false ∧ (L0.final s = true →
+      FsEq s.fs { fs with root := overlayAll fs.root dest.names items fs.root }) :=
+  multi_concurrent_ok fs c dest items fuel hd hn hwf hdest hdd hfuel hsrc hnd hun hcomp hlen ls s hrun
 
 /-- the totals of the update stream of a failure-free run are the same on every schedule -/
 theorem update_totals_schedule_independent (files : List Nat) (s1 s2 : Status.St)
